@@ -32,7 +32,7 @@ def generate(name, constants, depth=None, simulate=None, simdepth=None, workers=
     wd = workdir('gen_' + name)
     cfg = os.path.join(wd, 'gen.cfg')
     base = dict(MaxRes=2, MaxSets=1, MaxAnns=4, MaxData=3, MaxKeys=2, Depth=depth if depth is not None else (simdepth if simdepth is not None else 3), Scenario='all',
-                Size='s', Prelude=0, Reads=[], DevShift=False, EmitAll=bool(per_state))
+                Size='s', Prelude=0, Reads=[], DevShift=False, EmitAll=bool(per_state), P1=0, P2=0)
     base.update(constants)
     write_cfg(cfg, constants=base, constraint='Bounded', invariants=['Emit'], view='View' if per_state else None)
     r = run_tlc('MC_Store.tla', cfg, wd, workers=workers, simulate=simulate,
@@ -148,7 +148,21 @@ def mismatch_diffs(m):
     rec, exp = m['rec'], m['exp']
     d = []
     if exp.get('readonly'):
-        return [('readonly', exp.get('expected'), {'res': rec.get('res'), 'api': rec.get('api')})]
+        e, g = exp.get('expected'), rec.get('api')
+        if rec['ev'] == 'TestRelationRow' and isinstance(g, dict) and len(e.get('v', [])) == len(g.get('v', [])):
+            return [(f'cell[|B|={len(rec["a"]["Bs"][i])}]' + ('panic' if g['v'][i] == 'P' else ''), dict(B=rec['a']['Bs'][i], v=e['v'][i]), g['v'][i])
+                    for i in range(len(e['v'])) if e['v'][i] != g['v'][i]]
+        if rec['ev'] == 'RelatedRow' and isinstance(g, dict) and len(e.get('rows', [])) == len(g.get('rows', [])):
+            d = []
+            for i in range(len(e['rows'])):
+                es, gs = sorted(map(tuple, e['rows'][i])), sorted(map(tuple, g['rows'][i]))
+                if es != gs or len(set(gs)) != len(gs):
+                    o = rec['a']['os'][i]
+                    kind = ('dup' if len(set(gs)) != len(gs) else '') + ('missing' if set(es) - set(gs) else '') + ('extra' if set(gs) - set(es) else '')
+                    d.append((f'row[{o["op"]}{",all" if o["all"] else ""}{",neg" if o["negate"] else ""}{",ws" if o["ws"] else ""}{",limit" if o["limit"] else ""}]{kind}',
+                              dict(o=o, ranges=e['rows'][i]), g['rows'][i]))
+            return d
+        return [('readonly', e, {'res': rec.get('res'), 'api': g})]
     if 'st' in exp:
         if not rec.get('projok', True):
             d.append(('projection', 'ok', 'panic'))
@@ -218,7 +232,8 @@ def attribute(m, diffs):
 
 
 READONLY_OWNER = {'Lookup': 'C03', 'TextSel': 'C04', 'AnnTextOf': 'C04', 'OffsetReport': 'C04', 'Utf8Byte': 'C12',
-                  'ByteToChar': 'C12', 'TextOp': 'C07', 'TestRelation': 'C13', 'RelatedText': 'C06'}
+                  'ByteToChar': 'C12', 'TextOp': 'C07', 'TestRelation': 'C13', 'RelatedText': 'C06',
+                  'TestRelationRow': 'C13', 'RelatedRow': 'C06'}
 
 
 def _has_offset(t):
@@ -251,7 +266,10 @@ def arg_features(rec):
             f.append('off=' + a['off']['bk'] + a['off']['ek'])
     elif ev == 'OffsetReport':
         f.append('m=%d' % a['m'])
-    elif ev in ('TestRelation', 'RelatedText'):
+    elif ev == 'RelatedRow':
+        f.append('via=' + a['via'])
+        f.append('A=%d' % len(a['A']))
+    elif ev in ('TestRelation', 'RelatedText', 'TestRelationRow'):
         o = a['o']
         f.append('op=' + o['op'] + (',all' if o['all'] else '') + (',neg' if o['negate'] else '') + (',ws' if o['ws'] else '') + (',limit' if o['limit'] else ''))
         f.append('A=%d' % len(a['A']))
@@ -266,6 +284,8 @@ def arg_features(rec):
 def fingerprint(m, diffs):
     rec, exp = m['rec'], m['exp']
     paths = sorted(set(norm_path(p) for p, _, _ in diffs))
+    if exp.get('readonly') and rec['ev'] in ('TestRelationRow', 'RelatedRow'):
+        return '|'.join([rec['ev'], 'exp=ro', 'got=' + rec['outcome'], ','.join(paths), ','.join(arg_features(rec))])
     # collapse detail: keep top-level classes only
     classes = sorted(set(re.sub(r'^(st\.\w+(\[\*\])?(\.\w+)?|api\.\w+(\[\*\])?(\.\w+)?|\w+).*$', r'\1', p) for p in paths))
     return '|'.join([rec['ev'], 'exp=' + str(exp.get('outcome', 'ro')), 'got=' + rec['outcome'], ','.join(classes),
